@@ -54,8 +54,22 @@ def _history(subject):
                                      'k': st.integers(0, 7)})
         ops += [reply, reply, adv, fwd]
         tail = st.one_of(st.just([]), st.just([]), st.tuples(shutdown, st.lists(reply, min_size=1, max_size=3)).map(lambda t: [t[0]] + t[1]))
-        return st.tuples(st.lists(attach, min_size=1, max_size=4), st.lists(st.one_of(*ops), min_size=2, max_size=22), tail).map(
+        free = st.tuples(st.lists(attach, min_size=1, max_size=4), st.lists(st.one_of(*ops), min_size=2, max_size=22), tail).map(
             lambda t: t[0] + t[1] + t[2])
+
+        @st.composite
+        def late_reply(draw):
+            """A parameterised Interest whose validator takes 30 ms, answered between (arrival + lifetime) and (end of validation +
+            lifetime): the lifetime counts from the arrival - too rare a conjunction in free histories."""
+            p = draw(pref)
+            life = draw(st.sampled_from([5, 50]))
+            core = [{'op': 'attach', 'p': p, 'rep': draw(st.sampled_from([0, 5, 10])), 'val': 'slow-pass'},
+                    {'op': 'interest', 'under': 0, 'params': True, 'ext': draw(st.lists(st.sampled_from(ALPHABET[:3]), max_size=1)),
+                     'life': life, 'mode': draw(st.sampled_from(['await', 'task']))},
+                    {'op': 'adv', 'ms': draw(st.sampled_from([life - 1 - 31 if life > 32 else 0, life + 1 - 31 if life > 31 else 0, life, 49, 50, 51]))},
+                    {'op': 'reply', 'k': 0}]
+            return core + draw(st.lists(st.one_of(*ops), max_size=5))
+        return st.one_of(free, free, free, late_reply())
     return st.tuples(st.lists(attach, min_size=1, max_size=4), st.lists(st.one_of(*ops), min_size=2, max_size=22)).map(
         lambda t: t[0] + t[1])
 
